@@ -196,12 +196,16 @@ def chunks {α : Type} (n : Nat) : Nat → List α → List (List α)
 /-- `const applyBatchSize`, regenerated from keyvalue.go on every run -/
 def applyBatchSize : Nat := Generated.KV.applyBatchSize
 
-/-- client `a` runs `syncWithPeer` against server `b` (no storage faults) -/
-def exchange (a b : State) : State × State :=
+/-- client `a` runs `syncWithPeer` against server `b`; `fb` is a storage fault hitting the server's
+single `SetRaw` of the pushed values (the client side runs without faults) -/
+def exchangeF (fb : Fault) (a b : State) : State × State :=
   let pushed := valuesAt a.store (pushIds a.index b.index)
   let pulled := valuesAt b.store (pullIds a.index b.index)
-  let b' := (setRaw .none pushed b).1
+  let b' := (setRaw fb pushed b).1
   let a' := (chunks (applyBatchSize - 1) pulled.length pulled).foldl (fun s batch => (setRaw .none batch s).1) a
   (a', b')
+
+/-- one fault-free exchange -/
+def exchange (a b : State) : State × State := exchangeF .none a b
 
 end AnySync.KV
